@@ -475,3 +475,10 @@ func (w *World) Health(ctx context.Context) error {
 }
 
 var _ = rsa.PrivateKey{}
+
+// SetApp maps an application id to an entity id without registering an SP.
+func (w *World) SetApp(appID, entityID string) {
+	w.mu.Lock()
+	w.apps[appID] = entityID
+	w.mu.Unlock()
+}
